@@ -586,6 +586,26 @@ pub fn t_write_scan<const KO: usize, const KN: usize>(hdr: &'static [u8]) {
     std::mem::forget(h);
 }
 
+/// Native fall-back replay for the extreme-number family (c11b): the same headers through the real parse_hunk, same assertions.
+#[cfg(test)]
+#[test]
+fn replay_sweep_numeric() {
+    let values: [u128; 12] = [0, 1, 1 << 31, (1 << 62) - 1, 1 << 62, (1 << 63) - 1, 1 << 63, (1 << 63) + 1, (1 << 64) - 1, 1 << 64, 1_000_000_000_000, 100_000_000_000_000_000_000];
+    for pos in 0..4 {
+        for v in values.iter() {
+            let mut f = [1u128; 4];
+            f[pos] = *v;
+            let text = format!("@@ -{},{} +{},{} @@\n-a\n+b\n", f[0], f[1], f[2], f[3]).into_bytes();
+            if let Ok((_rest, h)) = parse_hunk(&text[..]) {
+                assert!(h.remove.target_line >= 0 && h.add.target_line >= 0, "negative start line for header {:?}", String::from_utf8_lossy(&text[..40.min(text.len())]));
+                assert!(h.remove.target_line <= isize::max_value() / 2 && h.add.target_line <= isize::max_value() / 2,
+                        "start line beyond the range placement arithmetic is safe for (isize::MAX / 2): header {:?}", String::from_utf8_lossy(&text[..text.len().min(60)]));
+                assert!(h.remove.content.capacity() <= text.len() && h.add.content.capacity() <= text.len(), "allocation out of proportion to the input");
+            }
+        }
+    }
+}
+
 /// Native fall-back replay for lemma 1 (used when the solver's trace for a failing instance does not fit in memory): the same
 /// construction as t_hunk_text on random edit scripts and bytes (CR, backslash, blank, high bytes among them), real memchr.
 #[cfg(test)]
